@@ -144,12 +144,22 @@ def feed(job):
     child = ds.DistributorQueue(p.queue_rx_dali)
     exc = []
     pos = 0
-    for ci, size in enumerate(chunks, 1):
-        try:
-            p.data_received(bytes(data[pos:pos + size]))
-        except Exception as e:  # noqa: recorded
-            exc.append([ci, type(e).__name__])
-        pos += size
+    # the reads arrive with pauses between them (a busy event loop, a stalling USB adapter): the clocks a receiver could
+    # look at jump by anything between nothing and a minute from one read to the next
+    import time as _t
+    saved = (_t.monotonic, _t.time, _t.perf_counter)
+    clock = [1000.0]
+    _t.monotonic = _t.time = _t.perf_counter = lambda: clock[0]
+    try:
+        for ci, size in enumerate(chunks, 1):
+            clock[0] += (0.0, 0.001, 0.7, 0.0, 3.0, 0.02, 61.0)[(ci * 5 + len(data)) % 7]
+            try:
+                p.data_received(bytes(data[pos:pos + size]))
+            except Exception as e:  # noqa: recorded
+                exc.append([ci, type(e).__name__])
+            pos += size
+    finally:
+        _t.monotonic, _t.time, _t.perf_counter = saved
     return _collect(proto, data, chunks, p, child, exc)
 
 
